@@ -624,6 +624,16 @@ func propC18TimeTemplateEncodings(t *rapid.T) {
 			fl = append(fl, nan())
 		}
 		liftCheck(t, "json.Marshal(float)", nil, rojson.Marshal[float64](), fl, func(x float64) ([]byte, error) { return json.Marshal(x) })
+		// element and field types whose custom encoding has a POINTER receiver (used by
+		// encoding/json only for addressable values), a value receiver, or a text form
+		monies := make([]c18Money, n)
+		wraps := make([]c18Wrap, n)
+		for i := range monies {
+			monies[i] = c18Money{Cents: rapid.IntRange(-500, 5000).Draw(t, "cents"), Currency: rapid.SampledFrom([]string{"EUR", "USD", ""}).Draw(t, "cur")}
+			wraps[i] = c18Wrap{Price: monies[i], Tag: c18Tag(i), Ptr: &monies[i], When: c18Stamp{i}}
+		}
+		liftCheck(t, "json.Marshal(pointer-receiver marshaler)", nil, rojson.Marshal[c18Money](), monies, func(x c18Money) ([]byte, error) { return json.Marshal(x) })
+		liftCheck(t, "json.Marshal(nested marshalers)", nil, rojson.Marshal[c18Wrap](), wraps, func(x c18Wrap) ([]byte, error) { return json.Marshal(x) })
 		docs := bytesOf(genTexts(t, 3), false)
 		for i := range docs {
 			if rapid.Bool().Draw(t, "valid") {
@@ -917,4 +927,30 @@ func trimTo(s string, n int) string {
 		return s[:n] + "..."
 	}
 	return s
+}
+
+// c18Money: MarshalJSON on the pointer receiver only.
+type c18Money struct {
+	Cents    int
+	Currency string
+}
+
+func (m *c18Money) MarshalJSON() ([]byte, error) {
+	return json.Marshal(fmt.Sprintf("%d.%02d %s", m.Cents/100, m.Cents%100, m.Currency))
+}
+
+// c18Tag: value-receiver marshaler; c18Stamp: pointer-receiver text marshaler.
+type c18Tag int
+
+func (g c18Tag) MarshalJSON() ([]byte, error) { return []byte(fmt.Sprintf("\"tag-%d\"", int(g))), nil }
+
+type c18Stamp struct{ N int }
+
+func (s *c18Stamp) MarshalText() ([]byte, error) { return []byte(fmt.Sprintf("stamp:%d", s.N)), nil }
+
+type c18Wrap struct {
+	Price c18Money
+	Tag   c18Tag
+	Ptr   *c18Money
+	When  c18Stamp
 }
